@@ -41,15 +41,23 @@ Fixpoint ns_eqb (a b : list N) : bool :=
   | _, _ => false
   end.
 
-Definition obs := (wout * list (user * (cid * N)) * list user)%type.
+(* one observation: the call's answer and the storage dump taken afterwards (None = the dump is what it was
+   before the call: the harness prints a dump only when it changed) *)
+Definition obs := (wout * option (list (user * (cid * N)) * list user))%type.
 Record case := { c_ops : list wop; c_obs : list obs }.
+
+Definition dump_ok (st s1 : wstate) (d : option (list (user * (cid * N)) * list user)) : bool :=
+  match d with
+  | Some (rows, ks) => urows_eqb rows (dump_rows s1) && ns_eqb ks (dump_keys s1)
+  | None => urows_eqb (dump_rows st) (dump_rows s1) && ns_eqb (dump_keys st) (dump_keys s1)
+  end.
 
 Fixpoint check_from (st : wstate) (ops : list wop) (os : list obs) : bool :=
   match ops, os with
   | [], [] => true
-  | o :: r, (x, rows, ks) :: t =>
+  | o :: r, (x, d) :: t =>
       let '(s1, y) := step Fixed st o in
-      wout_eqb x y && urows_eqb rows (dump_rows s1) && ns_eqb ks (dump_keys s1) && check_from s1 r t
+      wout_eqb x y && dump_ok st s1 d && check_from s1 r t
   | _, _ => false
   end.
 
